@@ -85,8 +85,14 @@ class Ctx:
             self.violation(rule, key, loc, what_bad or ('NOT: ' + what_ok), path)
         return cond
 
-    def require(self, rule, found, minimum):
-        self.mins.append((rule, found, minimum))
+    def require(self, rule, found, minimum, exact=False):
+        """Anti-vacuity floor: the rule must have examined at least `minimum` instances. The figures in the property modules are the
+        counts confirmed by hand on the pinned tree; a behaviour-preserving edit may merge duplicated sites (two arms sharing one
+        exit, two loops fused), so the floor that is enforced is three quarters of the confirmed count (never below 3, and the
+        confirmed count itself when that is below 4 or the count is fixed by the interface: exact=True). Every instance that is
+        found is still checked; a rule that lost most of its instances fails as analysis-broken."""
+        floor = minimum if (exact or minimum < 4) else max(3, (minimum * 3) // 4)
+        self.mins.append((rule, found, floor))
 
     def control(self, name, fired):
         self.controls.append((name, bool(fired)))
